@@ -123,6 +123,21 @@ func malformedEntries(prefix string, kind int, rng *rand.Rand) []string {
 		b := make([]byte, rng.Intn(4))
 		rng.Read(b)
 		return []string{prefix + string(b)}
+	// well-formed headers whose numbers do not fit the list
+	case 8:
+		return []string{prefix + "01-AAAA"} // number equals the number of entries
+	case 9:
+		return []string{prefix + "05-AAAA", prefix + "07-BB"}
+	case 10:
+		return []string{prefix + "00-AA", prefix + "00-BB", prefix + "00-CC"}
+	case 11:
+		return []string{prefix + "01-BB", prefix + "02-CC"} // first chunk missing
+	case 12:
+		return []string{prefix + "99999999999999999999999-AA", prefix + "4294967296-B", prefix + "9223372036854775807-C"}
+	case 13:
+		return []string{prefix + "02-CC", prefix + "01-BB", prefix + "00-AA"} // reversed
+	case 14:
+		return []string{prefix + "00-", prefix + "01-", prefix + "03-x"}
 	}
 	return nil
 }
@@ -311,12 +326,12 @@ func runChunks(c *engine.Ctx) engine.Result {
 			}
 			cc := chunkCase{Prefix: p, Length: l, Content: content, CSeed: rng.Int63(), Foreign: rng.Intn(3) == 0}
 			if rng.Intn(8) == 0 {
-				cc.Malform = 1 + rng.Intn(7)
+				cc.Malform = 1 + rng.Intn(14)
 			}
 			cases = append(cases, cc)
 		}
 		// malformed-only coverage: every kind with small payloads
-		for k := 1; k <= 7; k++ {
+		for k := 1; k <= 14; k++ {
 			for _, l := range []int{1, 2, 3, m, m + 1, 5 * m} {
 				cases = append(cases, chunkCase{Prefix: p, Length: l, Content: "b64", CSeed: rng.Int63(), Malform: k, Foreign: k%2 == 0})
 			}
